@@ -128,6 +128,56 @@ def canonOp (args : List String) : String :=
     hex (signedData sf rs)
   | _ => "bad-op"
 
+
+def hexList (xs : List Bytes) : String := if xs.isEmpty then "-" else ",".intercalate (xs.map hex)
+
+def describeOpt : Opt.Opt → String
+  | .llq v o e i l => s!"LLQ v={v} op={o} err={e} id={i} lease={l}"
+  | .ul l k => s!"UL lease={l} keylease={k}"
+  | .nsid d => "NSID " ++ hex d
+  | .esu d => "ESU " ++ hex d
+  | .dau d => "DAU " ++ hex d
+  | .dhu d => "DHU " ++ hex d
+  | .n3u d => "N3U " ++ hex d
+  | .subnet f m sc a => s!"SUBNET fam={f} src={m} scope={sc} addr=" ++ hex a
+  | .expire none => "EXPIRE empty"
+  | .expire (some v) => s!"EXPIRE {v}"
+  | .cookie d => "COOKIE " ++ hex d
+  | .keepalive t => s!"KEEPALIVE {t}"
+  | .padding d => "PADDING " ++ hex d
+  | .ede c t => s!"EDE code={c} text=" ++ hex t
+  | .reporting a => "REPORTING " ++ hex a
+  | .zoneversion l t v => s!"ZONEVERSION labels={l} type={t} version=" ++ hex v
+  | .local c d => s!"LOCAL code={c} data=" ++ hex d
+
+def describeParam : Opt.Param → String
+  | .mandatory cs => "mandatory " ++ (if cs.isEmpty then "-" else ",".intercalate (cs.map toString))
+  | .alpn ids => "alpn " ++ hexList ids
+  | .noDefaultAlpn => "no-default-alpn"
+  | .port p => s!"port {p}"
+  | .ipv4hint ips => "hint4 " ++ hexList ips
+  | .ech d => "ech " ++ hex d
+  | .ipv6hint ips => "hint16 " ++ hexList ips
+  | .dohpath t => "dohpath " ++ hex t
+  | .ohttp => "ohttp"
+  | .local k d => s!"key{k} " ++ hex d
+
+/-- `opt.describe` / `opt.repack`: the options of an OPT RDATA decoded by the model, and packed again -/
+def optOp (repack : Bool) (rd : Bytes) : String :=
+  match Opt.unpackOpts rd with
+  | none => "none"
+  | some opts =>
+    if repack then (match Opt.packOpts opts with | some w => hex w | none => "none")
+    else if opts.isEmpty then "-" else " | ".intercalate (opts.map describeOpt)
+
+/-- `svc.describe` / `svc.repack`: the parameters of an SVCB / HTTPS RDATA (after priority and target) -/
+def svcOp (repack : Bool) (rd : Bytes) : String :=
+  match Opt.unpackParams rd with
+  | none => "none"
+  | some ps =>
+    if repack then (match Opt.packParams ps with | some w => hex w | none => "none")
+    else if ps.isEmpty then "-" else " | ".intercalate (ps.map describeParam)
+
 /-- `zone.denote <originhex> <defttl|-> line*` with line = `rr:<ownerhex|->:<ttl|->:<cls|->:<0|1>:<typ>` |
     `ttl:<v>` | `origin:<hex>` | `empty`.  Both the token machine and the specification are run. -/
 def zoneOp (spec : Bool) (args : List String) : String :=
@@ -398,6 +448,10 @@ def runOp (op : String) (args : List String) : String :=
       let (rs, e) := ZoneText.readZone org d text
       ((if e then "err " else "ok ") ++ " ".intercalate (rs.map fun r => s!"{hex r.name}:{r.ttl}:{r.cls}:{r.typ}")).trimAscii.toString
     | _, _ => "bad-op"
+  | "opt.describe", [t] => (match unhex t with | some b => optOp false b | none => "bad-op")
+  | "opt.repack", [t] => (match unhex t with | some b => optOp true b | none => "bad-op")
+  | "svc.describe", [t] => (match unhex t with | some b => svcOp false b | none => "bad-op")
+  | "svc.repack", [t] => (match unhex t with | some b => svcOp true b | none => "bad-op")
   | "lex", [t] => match unhex t with
     | some b =>
       let toks := Lex.lexAll b
